@@ -563,8 +563,8 @@ func (r *Adaptation) discoverPlugins() ([]string, []string, []string, error) {
 		name := e.Name()
 		idx, base, err := api.ParsePluginName(name)
 		if err != nil {
-			return nil, nil, nil, fmt.Errorf("failed to discover plugins in %s: %w",
-				r.pluginPath, err)
+			log.Warnf(noCtx, "ignoring %s in %s: %v", name, r.pluginPath, err)
+			continue
 		}
 
 		cfg, err := r.getPluginConfig(idx, base)
